@@ -137,6 +137,13 @@ class Scheduler:
             return True, False
         if kind == "drain":
             return all(not q.alive or q is p for q in self.parts), False
+        if kind == "alive":
+            return True, False
+        if kind == "join":
+            target, timeout = op[1], op[2]
+            if not target.alive:
+                return True, False
+            return (timeout is not None), (timeout is not None)
         q = op[1]
         if kind in ("empty", "qsize", "full", "put_nowait", "get_nowait"):
             return True, False
@@ -213,6 +220,8 @@ class Scheduler:
     def _describe(op) -> str:
         if op is None:
             return "-"
+        if op[0] == "join":
+            return f"join({op[1].name})"
         if len(op) > 1 and hasattr(op[1], "label"):
             return f"{op[0]}({op[1].label},{len(op[1].items)})"
         return op[0]
@@ -238,8 +247,8 @@ class Scheduler:
     def join_threads(self, timeout: float = 2.0) -> int:
         alive = 0
         for t in self.threads:
-            t.join(timeout)
-            if t.is_alive():
+            threading.Thread.join(t, timeout)
+            if threading.Thread.is_alive(t):
                 alive += 1
         return alive
 
@@ -374,8 +383,25 @@ class Installed:
             finally:
                 sched.thread_end(p)
 
+        def is_alive(thread_self):
+            part = getattr(thread_self, "_verif_part", None)
+            if part is None:
+                return False  # never started
+            sched.point(("alive",))
+            return part.alive
+
+        def join(thread_self, timeout=None):
+            part = getattr(thread_self, "_verif_part", None)
+            if part is None:
+                raise RuntimeError("cannot join thread before it is started")
+            sched.point(("join", part, timeout))
+
+        self.saved["is_alive"] = lazy_pool.Collector.__dict__.get("is_alive")
+        self.saved["join"] = lazy_pool.Collector.__dict__.get("join")
         lazy_pool.Collector.start = start
         lazy_pool.Collector.run = run
+        lazy_pool.Collector.is_alive = is_alive
+        lazy_pool.Collector.join = join
         return self
 
     def __exit__(self, *exc):
@@ -384,4 +410,12 @@ class Installed:
         lp.threading = self.saved["threading"]
         lp.Collector.start = self.saved["start"]
         lp.Collector.run = self.saved["run"]
+        for name in ("is_alive", "join"):
+            if self.saved.get(name) is None:
+                try:
+                    delattr(lp.Collector, name)
+                except AttributeError:
+                    pass
+            else:
+                setattr(lp.Collector, name, self.saved[name])
         return False
